@@ -17,6 +17,9 @@ WORK = os.path.join(VERIF, ".work")
 REPO = "/repo"
 DRIVER = os.path.join(LEAN, ".lake", "build", "bin", "driver")
 VHARNESS = os.path.join(HARNESS, "target", "release", "vharness")
+# the protocol runner is three binaries (exact rationals; f64/f32; i64/i32), compiled in parallel; records are routed by scalar tag
+RUNNER_OF = {"Q": "vharness", "F": "vharness_f", "G": "vharness_f", "I": "vharness_i", "J": "vharness_i"}
+RUNNER_BINS = ("vharness", "vharness_f", "vharness_i")
 SCENARIO_BIN = {"history": "vharness_hist", "custom": "vharness_custom", "casts": "vharness_casts"}
 ALLOWED_AXIOMS = {"propext", "Classical.choice", "Quot.sound"}
 
@@ -242,7 +245,7 @@ def lake_build(targets):
     return rc == 0, out
 
 
-def cargo_build(bins=("vharness",)):
+def cargo_build(bins=RUNNER_BINS):
     """builds the protocol runner (and the scenario binaries a property needs) against /repo's working tree.  One binary per
     scenario, built separately: a change that stops one scenario from compiling leaves the others usable."""
     lk = _lock()
@@ -250,6 +253,9 @@ def cargo_build(bins=("vharness",)):
         if not os.path.exists(os.path.join(HARNESS, "Cargo.lock")):
             sh(["cp", os.path.join(REPO, "Cargo.lock"), os.path.join(HARNESS, "Cargo.lock")])
         cmd = ["cargo", "build", "--release", "--offline"]
+        bins = list(bins)
+        if "vharness" in bins:
+            bins += [b for b in RUNNER_BINS if b not in bins]
         for b in bins:
             cmd += ["--bin", b]
         rc, out = sh(cmd, cwd=HARNESS)
@@ -361,7 +367,29 @@ def axiom_audit(prop, modules, theorems):
 
 # ------------------------------------------------------------------ running cases
 
-def run_stream(cmd, lines, name, max_crashes=40):
+def run_impl_stream(lines):
+    """the implementation side: every record goes to the runner binary serving its scalar type (ids = positions in `lines`,
+    which also select among equivalent call orders / layouts inside the runner); the three runners work concurrently"""
+    from concurrent.futures import ThreadPoolExecutor
+    groups = {}
+    for i, l in enumerate(lines):
+        groups.setdefault(RUNNER_OF.get(l.split(" ", 1)[0], "vharness"), []).append(i)
+    out = ["missing"] * len(lines)
+    raws = []
+
+    def one(item):
+        exe, idx = item
+        res, raw = run_stream([os.path.join(HARNESS, "target", "release", exe), "run"], [lines[i] for i in idx], "impl", ids=idx)
+        return idx, res, raw
+    with ThreadPoolExecutor(max_workers=3) as ex:
+        for idx, res, raw in ex.map(one, sorted(groups.items())):
+            for i, r in zip(idx, res):
+                out[i] = r
+            raws.append(raw)
+    return out, "".join(raws)
+
+
+def run_stream(cmd, lines, name, max_crashes=40, ids=None):
     """feed `id line` records to a runner and collect `id result` lines.  A runner that dies (signal, abort) is restarted after the
     record it died on; that record's result is `crash <rc>` (the crate brought the process down on this input)."""
     res = {}
@@ -369,14 +397,16 @@ def run_stream(cmd, lines, name, max_crashes=40):
     crashes = 0
     raw = []
     n = len(lines)
+    ids = list(ids) if ids is not None else list(range(n))
+    pos = {ident: k for k, ident in enumerate(ids)}
     while start < n:
-        text = "".join(f"{i} {lines[i]}\n" for i in range(start, n))
+        text = "".join(f"{ids[i]} {lines[i]}\n" for i in range(start, n))
         p = subprocess.run(cmd, input=text, stdout=subprocess.PIPE, stderr=subprocess.PIPE, text=True)
         raw.append(p.stdout)
         for l in p.stdout.splitlines():
             sp = l.split(" ", 1)
-            if len(sp) == 2 and sp[0].isdigit():
-                res[int(sp[0])] = sp[1]
+            if len(sp) == 2 and sp[0].isdigit() and int(sp[0]) in pos:
+                res[pos[int(sp[0])]] = sp[1]
         if p.returncode == 0:
             break
         if name == "model":
@@ -403,9 +433,8 @@ def run_cases(prop, lines, tag="cases"):
         for i, l in enumerate(lines):
             f.write(f"{i} {l}\n")
     outs = []
-    for exe, name in ((DRIVER, "model"), ([VHARNESS, "run"], "impl")):
-        cmd = exe if isinstance(exe, list) else [exe]
-        out, raw = run_stream(cmd, lines, name)
+    for exe, name in ((DRIVER, "model"), (None, "impl")):
+        out, raw = run_stream([exe], lines, name) if exe else run_impl_stream(lines)
         outs.append(out)
         with open(os.path.join(d, f"{tag}.{name}.txt"), "w") as f:
             f.write(raw)
@@ -419,7 +448,7 @@ def run_impl_only(prop, lines, tag="oracle"):
     with open(cases_path, "w") as f:
         for i, l in enumerate(lines):
             f.write(f"{i} {l}\n")
-    out, _ = run_stream([VHARNESS, "run"], lines, "impl")
+    out, _ = run_impl_stream(lines)
     return out
 
 
